@@ -39,7 +39,8 @@ def grammar_ok(down: List[str]) -> bool:
     return all(x == "N" for x in down[:-1])
 
 
-def perform(scn: Dict[str, Any]) -> Dict[str, Any]:
+def perform(scn: Dict[str, Any], omit=()) -> Dict[str, Any]:
+    """omit: kinds of terminal callbacks the subscriber does NOT supply (subscribe(on_next) / subscribe(on_next, on_error) ...)"""
     import reactivex as rx
     from reactivex import operators as ops
     from reactivex.disposable import Disposable
@@ -86,21 +87,35 @@ def perform(scn: Dict[str, Any]) -> Dict[str, Any]:
         raise ValueError(n["k"])
 
     obs = mk(1)
+    handlers = (user("N"), None if "E" in omit else user("E"), None if "C" in omit else user("C"))
+    unhandled = (UserErr, SrcFail, SrcErr) if "E" in omit else (UserErr, SrcFail)   # no on_error: the default handler re-raises
     try:
         if scn["ctx"] == "top":
-            obs.subscribe(user("N"), user("E"), user("C"))
+            obs.subscribe(*handlers)
         else:
-            CurrentThreadScheduler.singleton().schedule(lambda *_: obs.subscribe(user("N"), user("E"), user("C")))
-    except (UserErr, SrcFail):
+            CurrentThreadScheduler.singleton().schedule(lambda *_: obs.subscribe(*handlers))
+    except unhandled:
         escaped += 1
     for i, what in enumerate(g["post"]):
         if not saved:
             break
         try:
             call(saved[0], what, 100 + i)
-        except (UserErr, SrcFail):
+        except unhandled:
             escaped += 1
     return {"down": down, "escaped": escaped}
+
+
+def _subset_mismatch(scn, got):
+    for omit in (("C",), ("E",), ("C", "E")):
+        try:
+            got2 = perform(scn, omit)
+        except Exception as e:
+            got2 = {"down": [], "escaped": -1, "raised": type(e).__name__ + ": " + str(e)[:200]}
+        exp = [x for x in got["down"] if x not in omit]
+        if got2["down"] != exp or "raised" in got2:
+            return omit, got2, exp
+    return None
 
 
 def judge(item):
@@ -115,6 +130,12 @@ def judge(item):
         fail = {"engine": "autodetach", "failure": "grammar", "after_terminal": got["down"][bad + 1], "terminal": got["down"][bad],
                 "shape": "/".join(n["k"] for n in scn["nd"]), "user_raises_at": scn["g"]["ur"], "source_raises": scn["g"]["fin"] == "raise",
                 "scn": scn, "expected": allowed, "observed": got}
+    elif scn["g"]["ur"] == 0 and (sub := _subset_mismatch(scn, got)) is not None:
+        # which terminal callbacks the subscriber supplied must not change what its other callbacks see: a subscriber without
+        # a completion (error) handler sees exactly the same sequence minus the completion (error)
+        omit, got2, exp = sub
+        fail = {"engine": "autodetach", "failure": "handler_subset", "omitted_handlers": list(omit), "shape": "/".join(n["k"] for n in scn["nd"]),
+                "scn": scn, "expected": [{"down": exp}], "observed": got2, "with_all_handlers": got}
     elif got not in allowed:
         drift = f"autodetach {'/'.join(n['k'] for n in scn['nd'])} g={json.dumps(scn['g'], sort_keys=True)}: model {json.dumps(allowed[0])} real {json.dumps(got)}"
     return fail, drift, got
